@@ -107,6 +107,10 @@ def writePotentials(potentials, cutoff, gridPoints, out = sys.stdout):
   @param gridPoints Number of grid points used to tabulate potential
   @param out Python stream object (supporting write()) to which output is sent"""
 
+  #Check that number of grid points is divisible by 4 (the check made for each potential never runs for an empty list of potentials)
+  if gridPoints%4 != 0:
+    raise WritePotentialException("The number of rows in a DL_POLY TABLE file needs to be divisible by 4. Number of rows specified = {} ".format(gridPoints))
+
   meshResolution = cutoff / (gridPoints-4.0)
   outputbuilder = StringIO()
   _writeTableHeader(meshResolution, cutoff, gridPoints, outputbuilder)
